@@ -62,3 +62,30 @@ package keeper
 //@ ensures [only_the_signer_pays] forall a addr :: a != addrstr(msg.Creator) && a != module("bridge") ==> bank.bal[a] == old(bank.bal[a])
 //@ ensures [signer_pays_exactly_the_amount] err == nil ==> bank.bal[addrstr(msg.Creator)] == old(bank.bal[addrstr(msg.Creator)]) - msg.Amount.Amount && bank.supply == old(bank.supply) - msg.Amount.Amount
 //@ ensures [only_positive_loya_amounts] err == nil ==> msg.Amount.Amount > 0 && msg.Amount.Denom == "loya"
+
+// ---- validator-set checkpoints (C16, C15) ----
+// Checkpoints are numbered by bridge.LatestCheckpointIdx.Index; ValidatorCheckpointIdxMap maps an index to the
+// checkpoint's timestamp (block time in ms), ValsetTimestampToIdxMap back, ValidatorCheckpointParamsMap[ts] holds
+// the checkpoint with its validator-set hash, timestamp and power threshold.
+
+//@ func (k Keeper).GetValidatorSetTimestampBefore(ctx, targetTimestamp) (ts, err)
+//@ ensures [found_is_a_checkpoint_strictly_before] err == nil ==> has(bridge.ValidatorCheckpointParamsMap, ts) && ts < targetTimestamp && ts > 0
+//@ ensures [found_is_the_latest_before] err == nil ==> forall t int :: has(bridge.ValidatorCheckpointParamsMap, t) && 0 <= t && t < targetTimestamp ==> t <= ts
+//@ ensures [error_only_when_no_checkpoint_before] err != nil ==> forall t int :: has(bridge.ValidatorCheckpointParamsMap, t) && 0 < t ==> t >= targetTimestamp
+//@ ensures [reads_only] nothing_written()
+//@ iter 0 invariant [nothing_visited_yet] $k == 0 && mostRecentTimestamp == 0
+
+//@ func (k Keeper).CalculateValidatorSetCheckpoint(ctx, powerThreshold, validatorTimestamp, validatorSetHash) (checkpoint, err)
+//@ requires [checkpoint_index_below_2_64] has(bridge.LatestCheckpointIdx) ==> bridge.LatestCheckpointIdx.Index < 18446744073709551615
+//@ modifies bridge.ValidatorCheckpointParamsMap, bridge.ValidatorCheckpointIdxMap, bridge.LatestCheckpointIdx, bridge.ValsetTimestampToIdxMap
+//@ ensures [checkpoint_indexes_are_contiguous] err == nil ==> has(bridge.LatestCheckpointIdx) && bridge.LatestCheckpointIdx.Index == (old(has(bridge.LatestCheckpointIdx)) ? old(bridge.LatestCheckpointIdx.Index) + 1 : 0)
+//@ ensures [index_and_timestamp_refer_to_each_other] err == nil ==> has(bridge.ValidatorCheckpointIdxMap, bridge.LatestCheckpointIdx.Index) && bridge.ValidatorCheckpointIdxMap[bridge.LatestCheckpointIdx.Index].Timestamp == validatorTimestamp && has(bridge.ValsetTimestampToIdxMap, validatorTimestamp) && bridge.ValsetTimestampToIdxMap[validatorTimestamp].Index == bridge.LatestCheckpointIdx.Index
+//@ ensures [hash_threshold_and_timestamp_recorded_with_the_checkpoint] err == nil ==> has(bridge.ValidatorCheckpointParamsMap, validatorTimestamp) && bridge.ValidatorCheckpointParamsMap[validatorTimestamp].Timestamp == validatorTimestamp && bridge.ValidatorCheckpointParamsMap[validatorTimestamp].PowerThreshold == powerThreshold && bytes(bridge.ValidatorCheckpointParamsMap[validatorTimestamp].ValsetHash) == bytes(validatorSetHash) && bytes(bridge.ValidatorCheckpointParamsMap[validatorTimestamp].Checkpoint) == bytes(checkpoint)
+//@ ensures [earlier_checkpoints_keep_their_index] forall i int :: i != bridge.LatestCheckpointIdx.Index ==> (has(bridge.ValidatorCheckpointIdxMap, i) <==> old(has(bridge.ValidatorCheckpointIdxMap, i))) && bridge.ValidatorCheckpointIdxMap[i] == old(bridge.ValidatorCheckpointIdxMap[i])
+//@ ensures [failure_changes_nothing] err != nil ==> nothing_written()
+
+//@ func (k Keeper).LastSavedValidatorSetStale(ctx) (stale, err)
+//@ requires [block_time_at_least_two_weeks_after_1970] unixms(blocktime(ctx)) >= 1209600000
+//@ ensures [stale_iff_latest_checkpoint_older_than_two_weeks] err == nil ==> (stale <==> ret(GetValidatorSetTimestampBefore, 0) < unixms(blocktime(ctx) + 1000000000 - 1209600000000000))
+//@ ensures [looks_at_checkpoints_up_to_now] called(GetValidatorSetTimestampBefore) && arg(GetValidatorSetTimestampBefore, targetTimestamp) == unixms(blocktime(ctx) + 1000000000)
+//@ ensures [reads_only] nothing_written()
